@@ -98,7 +98,7 @@ def registered():
 
 
 def run(ids):
-    ids = ids or sorted(os.path.basename(d) for d in glob.glob(os.path.join(VERIF, "seeded", "*")))
+    ids = ids or sorted(os.path.basename(d) for d in glob.glob(os.path.join(VERIF, "seeded", "*")) if os.path.isdir(d))
     rc, out = sh("git status --porcelain", REPO)
     if out.strip():
         print("refusing: /repo has uncommitted changes")
